@@ -2,6 +2,7 @@ from typing import Any, cast
 
 from reactivex import Observable, abc
 from reactivex.disposable import CompositeDisposable, SingleAssignmentDisposable
+from reactivex.internal import synchronized
 
 
 def fork_join_(*sources: Observable[Any]) -> Observable[tuple[Any, ...]]:
@@ -42,6 +43,8 @@ def fork_join_(*sources: Observable[Any]) -> Observable[tuple[Any, ...]]:
                 else:
                     observer.on_completed()
 
+        on_error = synchronized(parent.lock)(observer.on_error)
+
         subscriptions: list[SingleAssignmentDisposable] = [
             cast(SingleAssignmentDisposable, None)
         ] * n
@@ -59,7 +62,7 @@ def fork_join_(*sources: Observable[Any]) -> Observable[tuple[Any, ...]]:
                     done(i)
 
             subscriptions[i].disposable = sources[i].subscribe(
-                on_next, observer.on_error, on_completed, scheduler=scheduler
+                on_next, on_error, on_completed, scheduler=scheduler
             )
 
         for i in range(n):
